@@ -94,6 +94,9 @@ func discharge(obls []*Obligation, workDir string, tier string, jobs int) {
 	if tier == "thorough" {
 		budget = []int{90, 90, 90}
 	}
+	if tier == "retry" {
+		budget = []int{75, 75, 75}
+	}
 	var wg sync.WaitGroup
 	sem := make(chan struct{}, jobs)
 	for i, o := range obls {
@@ -110,7 +113,7 @@ func discharge(obls []*Obligation, workDir string, tier string, jobs int) {
 			var outs []string
 			if o.Cover || o.Must {
 				// covers and canaries only guard against vacuity: unsat is the interesting answer, keep them cheap
-				st1, out1, d1 := runSolver(solvers[0], file, 3)
+				st1, out1, d1 := runSolver(solvers[0], file, 1)
 				o.Status, o.Solver, o.Secs = st1, solvers[0].name, d1
 				if st1 != "unsat" && st1 != "sat" {
 					o.Status = "unknown"
@@ -158,9 +161,14 @@ func discharge(obls []*Obligation, workDir string, tier string, jobs int) {
 			}
 			ch := make(chan res, len(solvers))
 			ctx, cancel := context.WithCancel(context.Background())
+			bud := budget
+			if strings.Contains(o.Script, "fp.to_sbv") || strings.Contains(o.Script, "to_fp 11 53) RNE") {
+				// float<->64-bit-integer conversions are bit-blasted: give them room
+				bud = []int{budget[0] * 4, budget[1] * 4, budget[2] * 4}
+			}
 			for si, sv := range solvers {
 				go func(si int, sv solverSpec) {
-					status, out, dur := runSolverCtx(ctx, sv, file, budget[si])
+					status, out, dur := runSolverCtx(ctx, sv, file, bud[si])
 					ch <- res{status, out, sv.name, dur}
 				}(si, sv)
 			}
